@@ -146,7 +146,17 @@ def shard(seed, n):
             raise core.HarnessError("replacement changed the text length: %r" % (chosen,))
         kinds = "+".join(sorted({k for k, _, _ in chosen}))
         di = any(any(g in new for g in ("<:", ":>", "<%", "%>", "%:")) for k, _, new in chosen if k in ("block-comment", "block-interior", "line-comment"))
-        compare(camp, p.name, a, b, {"variant": p.variant, "replaced": chosen}, relation="C17|%s%s" % (kinds, "|digraph-in-comment" if di else ""))
+
+        def relation(diff):
+            # a difference on the line of a replaced comment that now contains a digraph is attributed to that comment alone
+            if di and diff and diff[0][2]:
+                blines = b.split("\n")
+                ln = blines[diff[0][2] - 1] if diff[0][2] - 1 < len(blines) else ""
+                for k, _, new in chosen:
+                    if k in ("block-comment", "block-interior", "line-comment") and new.split("\n")[0] in ln and any(g in new for g in ("<:", ":>", "<%", "%>", "%:")):
+                        return "C17|%s|digraph-in-comment" % k
+            return "C17|%s%s" % (kinds, "|digraph-in-comment" if di else "")
+        compare(camp, p.name, a, b, {"variant": p.variant, "replaced": chosen}, relation=relation)
         if len(camp.samples) < 4 and camp.evaluations % 29 == 1:
             camp.samples.append({"variant": p.variant, "replaced": chosen})
 
